@@ -17,3 +17,11 @@ fn witness_gt(x: &Interval, y: &Interval) requires num_iv(*x), num_iv(*y) {
     let r = x.gt(y);
     //@MUSTFAIL
 }
+fn witness_intersect(x: &Interval, y: &Interval) requires num_iv(*x), num_iv(*y) {
+    let r = x.intersect(y);
+    //@MUSTFAIL
+}
+fn witness_union(x: &Interval, y: &Interval) requires num_iv(*x), num_iv(*y) {
+    let r = x.union(y);
+    //@MUSTFAIL
+}
